@@ -314,6 +314,58 @@ SEEDS = {
         detected_by={"C34": "run_mps: Results.aggregate receives one result per simulation, in order / is called exactly once (n_trajectories 32, 33, 65 added)"},
         strengthened="MISSED at first: run() was only exercised with up to 5 trajectories. Added 32, 33 and 65 and the clause that aggregate is called exactly once, on the per-trajectory results themselves",
     ),
+    # ---- third round (8 properties) ---------------------------------------------------------------
+    "C02c": dict(
+        property="C02",
+        change="init_initial_state moves a user-supplied initial state into site order with the INVERSE of the qubit permutation (same mechanism as round-1 seed C03, produced for C02)",
+        needs="reordering on with a non-involutive ordering (>= 3 atoms) and a custom initial state",
+        detected_by={"C02": "initial_state_follows_the_ordering_n3 (added): amplitude keys: character i of the internal state is the level of atom perm[i]", "C03": "initial_state_n3"},
+        strengthened="C02 MISSED it at first (C03 caught it): C03's initial-state case is now part of C02",
+    ),
+    "C03c": dict(
+        property="C03",
+        change="init_dark_qubits reorders the bad-atom mask with the inverse permutation (same mechanism as round-1 seed C25, produced for C03)",
+        needs="a bad atom, reordering on, a non-involutive ordering",
+        detected_by={"C03": "bad_atom_mask_follows_the_ordering_n3 (added): dark-atom mask is expressed in the internal (permuted) site order", "C25": "mps_bad_atoms_n3_d2_reorder"},
+        strengthened="C03 MISSED it at first (C25 caught it): C25's bad-atom case (masks with >= 2 well-prepared atoms) is now part of C03",
+    ),
+    "C05c": dict(
+        property="C05",
+        change="update_H returns early when omega, delta and the noise term are all zero: the single-atom blocks of the previous step stay in the factors",
+        needs="an update_H with non-zero drive followed by an all-zero one on the same MPO (a noiseless delay slot)",
+        detected_by={"C05": "mpo_rydberg_n2_d2_noise: after a second update_H the MPO equals the dense H of the new drive", "C02": "drive_update_rydberg_n2_steps2_reorder_slm"},
+    ),
+    "C10c": dict(
+        property="C10",
+        change="_determine_cutoff_index becomes a searchsorted on the individual eigenvalues instead of a running sum: all directions individually below precision^2 are discarded",
+        needs="a bond with >= 2 squared Schmidt values that are each <= precision^2 but together exceed it",
+        detected_by={"C10": "cutoff: cutoff(k=4): discarding one more eigenvalue would exceed eps^2 / discarded weight <= eps^2"},
+    ),
+    "C11c": dict(
+        property="C11",
+        change="MPO._from_operator_repr hoists the per-qudit factor list out of the loop over terms: later terms inherit the sub-operators of earlier ones",
+        needs="an operator with >= 2 terms where a later term leaves untouched a qudit an earlier term acted on",
+        detected_by={"C11": "operator_repr_full: dense(from_operator_repr) = sum_k c_k (x)_q op_kq"},
+    ),
+    "C12c": dict(
+        property="C12",
+        change="sparse_add gets an empty-operand fast path returning `other.coalesce()`: sparse_kron's result is flagged coalesced but not row-sorted, so a one-term SparseOperator reaches to_sparse_csr unsorted",
+        needs="a one-term operator with a non-monomial factor not on the last qubit, >= 2 qubits",
+        detected_by={"C12": "oprepr_keys_n2_k2: SparseOperator (to_dense) = sum coeff * kron of single-qubit matrices"},
+    ),
+    "C13c": dict(
+        property="C13",
+        change="density-matrix energy variance / second moment computed as ||H rho||_F^2 = tr(rho H^2 rho) instead of tr(rho H^2): right only for pure states",
+        needs="a mixed density matrix (any Lindblad evolution after t=0)",
+        detected_by={"C13": "dm_obs_n2_ops1: energy second moment = tr(rho H^2)"},
+    ),
+    "C23c": dict(
+        property="C23",
+        change="get_sequences stores the first trajectory's register matrix in the slot of the user-supplied matrix: all later trajectories (and later calls) use the first trajectory's matrix",
+        needs="no user matrix and >= 2 noise trajectories with different register matrices",
+        detected_by={"C23": "per_trajectory_matrix_samples2 (added): each repetition carries its own trajectory's interaction matrix", "C34": "reps_expansion_samples2"},
+        strengthened="C23 MISSED it at first (C34 caught it): C23 only ever built one trajectory. C34's multi-trajectory case is now part of C23",
+    ),
     "C22b": dict(
         property="C22",
         change="_limit_endpoint tests `d_end * s_l < 0` instead of comparing signs: a flat end secant no longer zeroes the end slope (the original defect D1 in another guise, both ends)",
